@@ -7,12 +7,56 @@ mod s_connexp;
 mod s_date;
 mod s_epoll;
 mod s_headers;
+mod s_memory;
 mod s_modes;
 mod s_parse;
 mod s_pool;
 mod s_printer;
 mod s_router;
 mod util;
+
+// counting global allocator (C20): live bytes, peak live bytes, number of allocations
+use std::alloc::{GlobalAlloc, Layout, System};
+use std::sync::atomic::{AtomicUsize, Ordering as AO};
+pub static LIVE: AtomicUsize = AtomicUsize::new(0);
+pub static PEAK: AtomicUsize = AtomicUsize::new(0);
+pub static ALLOC_COUNT: AtomicUsize = AtomicUsize::new(0);
+thread_local! {
+    /// allocations of a muted thread (the harness's own client side of an end-to-end measurement) are not counted
+    pub static MUTED: std::cell::Cell<bool> = const { std::cell::Cell::new(false) };
+}
+fn muted() -> bool { MUTED.try_with(|m| m.get()).unwrap_or(true) }
+struct Counting;
+unsafe impl GlobalAlloc for Counting {
+    unsafe fn alloc(&self, l: Layout) -> *mut u8 {
+        let p = System.alloc(l);
+        if !p.is_null() && !muted() {
+            let live = LIVE.fetch_add(l.size(), AO::SeqCst) + l.size();
+            PEAK.fetch_max(live, AO::SeqCst);
+            ALLOC_COUNT.fetch_add(1, AO::Relaxed);
+        }
+        p
+    }
+    unsafe fn dealloc(&self, p: *mut u8, l: Layout) {
+        System.dealloc(p, l);
+        if !muted() { LIVE.fetch_sub(l.size(), AO::SeqCst); }
+    }
+    unsafe fn realloc(&self, p: *mut u8, l: Layout, new: usize) -> *mut u8 {
+        let q = System.realloc(p, l, new);
+        if !q.is_null() && !muted() {
+            if new >= l.size() {
+                let live = LIVE.fetch_add(new - l.size(), AO::SeqCst) + (new - l.size());
+                PEAK.fetch_max(live, AO::SeqCst);
+            } else {
+                LIVE.fetch_sub(l.size() - new, AO::SeqCst);
+            }
+            ALLOC_COUNT.fetch_add(1, AO::Relaxed);
+        }
+        q
+    }
+}
+#[global_allocator]
+static GLOBAL: Counting = Counting;
 
 pub struct Ctx {
     pub seed: u64,
@@ -32,6 +76,7 @@ fn main() {
             "headers" => s_headers::run(&a[3]),
             "parse" => s_parse::run_parse(&a[3]),
             "body" => s_body::run(&a[3]),
+            "memory" => s_memory::run(&a[3]),
             "epoll" => s_epoll::run(&a[3]),
             "modes" => s_modes::run(&a[3]),
             "pool" => s_pool::run(&a[3]),
@@ -61,6 +106,7 @@ fn main() {
         "headers" => s_headers::gen(&ctx),
         "parse" => s_parse::gen_parse(&ctx),
         "body" => s_body::gen(&ctx),
+        "memory" => s_memory::gen(&ctx),
         "epoll" => s_epoll::gen(&ctx),
         "modes" => s_modes::gen(&ctx),
         "pool" => s_pool::gen(&ctx),
